@@ -183,13 +183,12 @@ theorem builtin_ok : ∀ e ∈ builtinTable, SpecOK e.2 := by
   simp only [builtinTable, List.forall_mem_cons]
   repeat' apply And.intro
   all_goals first
-    | (refine ⟨by decide, by decide, ?_⟩
-       rintro args ⟨h, h1, h2⟩
+    | omega
+    | (rintro args ⟨h, h1, h2⟩
        first
         | exact AL_call _ h (by simp only [fnArity]; omega)
         | (show AL (if _ then _ else _); split <;> exact AL_call _ h (by simp only [fnArity]; omega))
-        | (show AL (match _ with | 2 => _ | 3 => _ | _ => _)
-           split <;> exact AL_call _ h (by simp only [fnArity]; omega)))
+        | (dsimp only; split <;> exact AL_call _ h (by simp only [fnArity]; omega)))
     | (rintro args ⟨h, h1⟩
        simp only [AL, INode.all, Bool.and_eq_true, pAll, INode.arityHead, INode.litOk, decide_eq_true_eq]
        exact ⟨⟨h1, trivial⟩, h⟩)
@@ -321,20 +320,23 @@ theorem step_fnArgs {fuel : Nat} (ih : PIH fuel) (mn mx : Nat) (acc : List INode
   have hs := ALL_snoc ha harg
   have hl : (acc ++ [arg]).length = acc.length + 1 := by simp
   refine Post.ite (fun h => ?_) (fun h => ?_)
-  · refine Post.bind (Post.any _) fun _ _ => ?_
-    refine Post.bind (Post.any _) fun _ _ => ?_
-    refine Post.bind (Post.any _) fun _ _ => ?_
-    exact PIH.fnArgs ih _ _ _ hs (by omega) h2
+  · repeat' (first
+      | exact Post.fail_bind
+      | exact PIH.fnArgs ih _ _ _ hs (by omega) h2
+      | (refine Post.ite (fun _ => ?_) (fun _ => ?_))
+      | (refine Post.bind (Post.any _) fun _ _ => ?_))
   · refine Post.ite (fun h' => ?_) (fun h' => ?_)
-    · refine Post.bind (m := if _ then _ else _) (P := fun _ => True) ?_ fun _ _ => ?_
-      · exact Post.any _
-      · refine Post.bind (Post.any _) fun _ _ => ?_
-        refine Post.bind (Post.any _) fun _ _ => ?_
-        exact PIH.fnArgs ih _ _ _ hs (by omega) h2
-    · refine Post.bind (Post.any _) fun _ _ => ?_
-      refine Post.bind (Post.any _) fun _ _ => ?_
-      refine Post.bind (Post.any _) fun _ _ => ?_
-      exact Post.pure ⟨hs, by omega, by omega⟩
+    · repeat' (first
+        | exact Post.fail_bind
+        | exact PIH.fnArgs ih _ _ _ hs (by omega) h2
+        | exact Post.pure ⟨hs, by omega, by omega⟩
+        | (refine Post.ite (fun _ => ?_) (fun _ => ?_))
+        | (refine Post.bind (Post.any _) fun _ _ => ?_))
+    · repeat' (first
+        | exact Post.fail_bind
+        | exact Post.pure ⟨hs, by omega, by omega⟩
+        | (refine Post.ite (fun _ => ?_) (fun _ => ?_))
+        | (refine Post.bind (Post.any _) fun _ _ => ?_))
 
 theorem step_fnVarArgs {fuel : Nat} (ih : PIH fuel) (acc : List INode) (ha : ALL acc) :
     Post (fun r => ALL r ∧ 1 ≤ r.length) (fnVarArgs (fuel+1) acc) := by
